@@ -167,4 +167,17 @@ var Properties = map[string]*Property{
 		Assumptions: []string{"|value| < 2^40", "fractions are powers of two so that float64(total)*fraction is exact; int64(float64(x)*2^k) is rewritten to integer division after the solver confirms |x| < 2^53"},
 		Outside: []string{"dot/visual mode (entropy order uses math.Log2), RemoveRedundantEdges", "call_tree trimming (TrimTree)", "tag trimming"},
 	},
+	"C07": {
+		ID: "C07",
+		Harnesses: []HarnessSpec{
+			{Pkg: "profile", Fn: "VerifC07SelfDiff", Solver: "z3", QuickTimeoutS: 200, ThoroughTimeoutS: 300,
+				What: "Scale(-1) then Merge (the -base path of fetchProfiles): a profile minus itself is empty for every int64 value"},
+			{Pkg: "profile", Fn: "VerifC07Subtract", Solver: "z3", QuickTimeoutS: 120, ThoroughTimeoutS: 300,
+				What: "source minus base entry by entry for two stacks with symbolic values (|v| < 2^52)"},
+			{Pkg: "profile", Fn: "VerifC07ScaleN", Solver: "z3", Quick: map[string]int{"c07.ratios": 4}, Thorough: map[string]int{"c07.ratios": 7}, QuickTimeoutS: 300, ThoroughTimeoutS: 900,
+				What: "ScaleN with per-column ratios (1, 1024, 1/2, 1/4, 2, 0, -1): scaled values equal round(value*ratio) and a sample with a non-zero resulting column is never dropped"},
+		},
+		Assumptions: []string{"|value| < 2^40 in ScaleN (power-of-two ratios are then exact)"},
+		Outside: []string{"non-power-of-two ratios (ms<->ns, -normalize quotients): FP multiply by 10^k does not finish in the solver", "sample-type alignment (CompatibilizeSampleTypes) and unit harmonisation (ScaleProfiles) end to end", "diff-base percentages and proto round trip of the result"},
+	},
 }
